@@ -576,6 +576,11 @@ func blsAggCase[
 		}
 	}
 	n := flatPick(t, "n", []int{1, 2, 3, 4, 5, 6}[minN-1:])
+	if rapid.IntRange(1, 12).Draw(t, "moreSigners") == 12 {
+		// "every signer set size": aggregation has no size limit; 1..6 is a budget choice (each signer
+		// costs a hash to the curve, a signature and a pairing in pure Go), so larger sets are rare
+		n = rapid.SampledFrom([]int{8, 9, 12}).Draw(t, "nBig")
+	}
 	layout := rapid.SampledFrom(layouts).Draw(t, "layout")
 	sch, err := e.scheme(alg)
 	if err != nil {
@@ -862,6 +867,12 @@ func blsBatchCase[
 ](t *rapid.T, test string, e *blsEnv[PK, PKFE, SG, SGFE]) {
 	alg := flatPick(t, "alg", allAlgs)
 	k := rapid.IntRange(1, 4).Draw(t, "k")
+	if rapid.IntRange(1, 6).Draw(t, "moreMessages") == 6 {
+		// the same-key aggregate is one algebrautils.MultiScalarMul over the k hashed messages: naive
+		// up to 7 terms, bucketed (window bits.Len(k)) from 8 on; 7 / 8 / 9 sit around that switch,
+		// 16 takes the next window width
+		k = rapid.SampledFrom([]int{7, 8, 8, 9, 9, 16}).Draw(t, "kBig")
+	}
 	sch, err := e.scheme(alg)
 	if err != nil {
 		t.Fatalf("scheme: %v", err)
